@@ -278,7 +278,64 @@ def children_rules(ctx: Ctx, rule: str) -> None:
                "" if sel else "how flag_children selects its root node changed (other vms' or workers' nodes may match)")
 
 
+def children_table(ctx: Ctx, rule: str) -> None:
+    """flag_children as a decision table: which root is selected, how it is narrowed, when it raises, which flag is set."""
+    from ..kinds import TableSpec, table_rule
+
+    fref = f"{GRAPH}:TestGraph.flag_children"
+    views = function_views(ctx, fref, names_interesting({"should_run", "should_clean", "root_tests", "get_nodes", "get_nodes_by_name"}, extra=lambda n: isinstance(n, ast.Raise)))
+    for v_ in views:
+        v_.depth = 0  # the table is about the tests as written (root_tests / flagged are re-bound along the way)
+
+    def _stores(view):
+        return [ast.unparse(st.targets[0]).split(".")[-1] for i, st in view.stmts(lambda s_: isinstance(s_, ast.Assign) and ast.unparse(s_.targets[0]).endswith((".should_run", ".should_clean")))]
+
+    # a pass that flags nothing (work list empty at once) says nothing about which flag is set: judge the raising paths and those that flag a node
+    views = [v_ for v_ in views if v_.path.exit == "raise" or _stores(v_)]
+
+    def M(name, text, neg=False):
+        def m(t):
+            if t == text:
+                return (lambda v: not v[name]) if neg else (lambda v: v[name])
+            return None
+        return m
+
+    matchers = [M("OE", "object_name == ''"), M("NE", "node_name == ''"), M("WE", "worker_name == ''"),
+                M("N0", "empty(root_tests)"), M("N0", "len(root_tests) < 1"), M("N2", "len(root_tests) > 1"), M("N2", "1 < len(root_tests)"), M("RUN", "flag_type == 'run'"),
+                M("SP", "skip_parents"), M("SC", "skip_children")]
+
+    def reference(v):
+        sel = "shared" if v["OE"] and v["NE"] else ("objroot" if v["NE"] else "byname")
+        vm = (not v["NE"]) and (not v["OE"])
+        worker = not v["WE"]
+        if v["N0"] or v["N2"]:
+            return ("raise:AssertionError", sel, vm, worker, ())
+        return ("done", sel, vm, worker, ("should_run",) if v["RUN"] else ("should_clean",))
+
+    spec = TableSpec({k: [True, False] for k in ("OE", "NE", "WE", "N0", "N2", "RUN", "SP", "SC")}, matchers, reference,
+                     constraint=lambda v: not (v["N0"] and v["N2"]))
+
+    def outcome(view, val, free):
+        p = view.path
+        term = "raise:" + (PathEnum._raised_name(p.exit_node) or "?") if p.exit == "raise" else "done"
+        sel, vm, worker = None, False, False
+        for i, st in view.stmts(lambda s_: isinstance(s_, ast.Assign) and ast.unparse(s_.targets[0]) == "root_tests"):
+            t = ast.unparse(st.value)
+            if "subset=root_tests" not in t:
+                sel = "shared" if "'shared_root'" in t and "'yes'" in t else ("objroot" if "'object_root'" in t and "object_name" in t else ("byname" if t == "self.get_nodes_by_name(node_name)" else "?"))
+            elif "param_key='vms'" in t and "object_name" in t:
+                vm = True
+            elif "param_key='name'" in t and "worker_name" in t:
+                worker = True
+        return (term, sel, vm, worker, tuple(sorted(set(_stores(view)))))
+
+    table_rule(ctx, rule, fref, views, spec, outcome, ignore_atoms=lambda a: "flagged" in a,
+               construct="flag_children: root = shared root (no object, no node) / object root of the vm (no node) / node by name narrowed to the vm; narrowed to the worker if given; "
+               "not exactly one root -> AssertionError without flagging; flag_type run -> should_run, else should_clean")
+
+
 def run(ctx: Ctx) -> None:
+    ctx.call(children_table, "7t")
     ctx.call(update_flags, "")
     ctx.call(update_pinning, "5")
     from .c05 import sync_table
@@ -297,6 +354,11 @@ def run(ctx: Ctx) -> None:
 
 
 MUTANTS = [
+    ("flag-run-sets-clean", "cartgraph/graph.py", "            if flag_type == \"run\":\n                test_node.should_run = flag.__get__(test_node)\n            else:\n                test_node.should_clean = flag.__get__(test_node)\n            if not skip_children:",
+     "            if flag_type != \"run\":\n                test_node.should_run = flag.__get__(test_node)\n            else:\n                test_node.should_clean = flag.__get__(test_node)\n            if not skip_children:", "7t"),
+    ("flag-root-selection-swapped", "cartgraph/graph.py", "        elif node_name == \"\":\n            root_tests = self.get_nodes(\n                param_key=\"object_root\",", "        elif node_name != \"\":\n            root_tests = self.get_nodes(\n                param_key=\"object_root\",", "7t"),
+    ("flag-ambiguous-root-tolerated", "cartgraph/graph.py", "        elif len(root_tests) > 1:\n            raise AssertionError(\n                f\"Could not identify node with name {node_name} and flag all its children tests\"\n            )\n        else:\n            test_node = root_tests[0]", "        else:\n            test_node = root_tests[0]", "7"),
+    ("flag-worker-filter-inverted", "cartgraph/graph.py", "        if worker_name != \"\":\n            root_tests = self.get_nodes(\n                param_key=\"name\",", "        if worker_name == \"\":\n            root_tests = self.get_nodes(\n                param_key=\"name\",", "7t"),
     ("remove-set-from-global-params", "intertest_setup.py", "setup_str = vm_params.get(\"remove_set\", \"leaves\")", "setup_str = config[\"vms_params\"].get(\"remove_set\", \"leaves\")", "5v"),
     ("permanent-vm-never-cleaned", "cartgraph/node.py", "if object_state == \"install\" and test_object.is_permanent():\n                should_clean = False", "if test_object.is_permanent():\n                should_clean = False", "8"),
     ("clean-not-cleared", IS, "            clean_graph.flag_intersection(\n                clean_graph, flag_type=\"clean\", flag=lambda self, slot: False\n            )\n", "", "1"),
